@@ -409,7 +409,19 @@ InPlace == \E host \in {"", "mx.test"}, debug \in {"unset", "yes", "no"}, bs \in
               us \in {<<>>, <<UTs[1]>>, <<UTs[1], UTs[3], UTs[5]>>, <<UTs[10], UTs[2], UTs[4]>>} :
             epos <= Len(bs) /\ (epos < 0 => us = <<>>) /\ in = Row("place", host, debug, bs, epos, us)
 
-Init == InWide \/ InDeep \/ InPlace
+(* (d) chains and cycles of three blocks (the instances initialise each other lazily; "Break       *)
+(* circular dependencies") with references to any of them                                          *)
+ChainA == {Blk("verif.stub", <<"A", "Aa">>, <<BN("val", "1")>>), Blk("verif.stub", <<"A">>, <<BN("dep", "C")>>)}
+ChainB == {Blk("verif.stub", <<"B">>, <<BN("dep", "A")>>), Blk("verif.stub", <<"B">>, <<BN("hostname", "b.test")>>)}
+ChainC == {Blk("verif.stub", <<"C">>, <<BN("dep", "B"), BN("dep", "A")>>), Blk("verif.stub", <<"C", "Cc">>, <<BN("dep", "C"), BN("dep", "B")>>),
+           Blk("table.verif_stub", <<"C">>, <<>>)}
+ChainUTs == {Ref("use", "A", "none"), Ref("use", "B", "none"), Ref("use", "C", "none"), Ref("table", "C", "none"),
+             Inl("use", "stub", <<"q">>, "body", <<BN("dep", "C"), BN("val", "9")>>)}
+Perm3(a, b, c, p) == CASE p = 1 -> <<a, b, c>> [] p = 2 -> <<c, b, a>> [] p = 3 -> <<b, c, a>> [] OTHER -> <<c, a, b>>
+InChain == \E a \in ChainA, b \in ChainB, c \in ChainC, p \in 1..4, us \in SeqsUpTo(ChainUTs, 2), host \in {"", "mx.test"} :
+             Len(us) >= 1 /\ in = Row("chain", host, IF host = "" THEN "unset" ELSE "yes", Perm3(a, b, c, p), 3, us)
+
+Init == InWide \/ InDeep \/ InPlace \/ InChain
 Next == FALSE /\ UNCHANGED in
 Spec == Init /\ [][Next]_vars
 
